@@ -20,6 +20,7 @@ import (
 	"io"
 	"os"
 	"path/filepath"
+	"strings"
 	"sync"
 	"time"
 
@@ -196,6 +197,32 @@ func c12Measure(p *profile.Profile) (count int, stacks, values, labels, mappings
 	return len(p.Sample), ws.String(), wv.String(), wl.String(), wm.String()
 }
 
+// c12Tables: the mapping table (ids, ranges; files separately) and, per location in table order,
+// (id, mapping id — 0 for a nil mapping —, address).
+func c12Tables(p *profile.Profile) (mappings, files, locations string) {
+	var wm, wf, wl tw
+	wm.n(len(p.Mapping))
+	for _, m := range p.Mapping {
+		wm.nat(m.ID)
+		wm.nat(m.Start)
+		wm.nat(m.Limit)
+		wm.nat(m.Offset)
+		wf.str(m.File)
+		wf.str(m.BuildID)
+	}
+	wl.n(len(p.Location))
+	for _, l := range p.Location {
+		wl.nat(l.ID)
+		if l.Mapping == nil {
+			wl.nat(0)
+		} else {
+			wl.nat(l.Mapping.ID)
+		}
+		wl.nat(l.Address)
+	}
+	return wm.String(), wf.String(), wl.String()
+}
+
 func c12RunDriver(c *Ctx, cs c12Case) (nontrivial bool) {
 	mode := newTR(cs.Mode).str()
 	sym := c12DriverOnce(cs, mode)
@@ -205,16 +232,72 @@ func c12RunDriver(c *Ctx, cs c12Case) (nontrivial bool) {
 		c.Violation(sig+"panic", "pprof -proto -symbolize="+mode+" panics: "+trunc(sym.panic), cs)
 		return true
 	}
-	if none.panic != "" || none.err != "" {
-		c.Res.HarnessError = "C12 driver stream: the -symbolize=none run failed: " + none.panic + none.err
+	if none.panic != "" {
+		c.Violation(sig+"panic", "pprof -proto -symbolize=none panics: "+trunc(none.panic), cs)
+		return true
+	}
+	input, ierr := ParseCanon(cs.Profile)
+	if ierr != nil || input.CheckValid() != nil {
+		c.Res.HarnessError = "C12 driver stream: generated input is not a valid profile"
 		return false
 	}
+	// the fetch path around Symbolize must hand a valid profile through unchanged in its tables:
+	// the output (also of -symbolize=none) has the input's mapping table and location→mapping
+	// assignment (a location without mapping stays without). Only for an input without ANY mapping
+	// does the driver add its documented fake mapping; then the two runs are compared with each other.
+	vsInput := func(which string, out *profile.Profile) {
+		if len(input.Mapping) == 0 {
+			return
+		}
+		im, _, il := c12Tables(input)
+		om, _, ol := c12Tables(out)
+		if im != om {
+			c.Violation(sig+"tables/mapping-table-differs-from-input", fmt.Sprintf("`pprof -proto -symbolize=%s`: ids or ranges of the mapping table differ from the fetched profile's (%d mappings in, %d out)", which, len(input.Mapping), len(out.Mapping)), cs)
+		}
+		if il != ol {
+			c.Violation(sig+"tables/location-mapping-differs-from-input", "`pprof -proto -symbolize="+which+"`: id, mapping (nil stays nil) or address of a location differ from the fetched profile's", cs)
+		}
+	}
+	if none.err != "" {
+		// a valid profile, no symbolization requested: the fetch path itself must not fail
+		c.Violation(sig+"valid/fetch-fails-on-valid-profile", "`pprof -proto -symbolize=none` fails on a valid single-source profile: "+trunc(none.err), cs)
+		return true
+	}
+	vsInput("none", none.out)
 	if sym.err != "" {
-		// symbolization may fail (remote errors); nothing to compare
 		c.Res.Hit("driver:error")
+		if cs.LocalOnly || mode == "none" || mode == "no" {
+			// the local step only reports problems through the UI; an error here means the result
+			// was rejected (fetchProfiles re-checks validity) or the pipeline broke
+			c.Violation(sig+"valid/error-where-symbolize-none-succeeds", "`pprof -proto -symbolize="+mode+"` fails where -symbolize=none succeeds: "+trunc(sym.err), cs)
+		}
+		// remote symbolization may legitimately fail (scripted POST errors); nothing to compare
 		return sym.calls > 0
 	}
 	c.Res.Hit("driver:ok")
+	vsInput(mode, sym.out)
+	{
+		m1, f1, t1 := c12Tables(sym.out)
+		m0, f0, t0 := c12Tables(none.out)
+		if m1 != m0 || f1 != f0 {
+			c.Violation(sig+"tables/mapping-table", "mapping ids, ranges, files or build ids differ between -symbolize="+mode+" and -symbolize=none", cs)
+		}
+		if t1 != t0 {
+			c.Violation(sig+"tables/location-mapping", "a location's id, mapping or address differs between -symbolize="+mode+" and -symbolize=none", cs)
+		}
+	}
+	unmapped := 0
+	for _, l := range input.Location {
+		if l.Mapping == nil {
+			unmapped++
+		}
+	}
+	switch {
+	case len(input.Mapping) == 0:
+		c.Res.Hit("driver:no-mappings")
+	case unmapped > 0:
+		c.Res.Hit("driver:mapped+unmapped-locations")
+	}
 	n1, s1, v1, l1, m1 := c12Measure(sym.out)
 	n0, s0, v0, l0, m0 := c12Measure(none.out)
 	how := fmt.Sprintf("output of `pprof -proto -symbolize=%s` vs. the same command with -symbolize=none (single source)", mode)
@@ -293,6 +376,61 @@ func c12DriverProfile(r *Rng) *profile.Profile {
 		i := r.Intn(len(p.Sample) + 1)
 		p.Sample = append(p.Sample[:i], append([]*profile.Sample{s}, p.Sample[i:]...)...)
 	}
+	// ids as a profile.proto file or a Fetcher plug-in may carry them: not renumbered, so sparse
+	// (1,3,5…), unsorted, huge
+	switch r.Intn(5) {
+	case 0: // dense 1..n (as generated)
+		for i, m := range p.Mapping {
+			m.ID = uint64(i + 1)
+		}
+	case 1: // odd ids 1,3,5,…
+		for i, m := range p.Mapping {
+			m.ID = uint64(2*i + 1)
+		}
+	case 2: // descending
+		for i, m := range p.Mapping {
+			m.ID = uint64(len(p.Mapping) - i)
+		}
+	case 3: // small sparse, unsorted
+		used := map[uint64]bool{}
+		for _, m := range p.Mapping {
+			id := uint64(1 + r.Intn(2*len(p.Mapping)+2))
+			for used[id] {
+				id = uint64(1 + r.Intn(2*len(p.Mapping)+2))
+			}
+			used[id] = true
+			m.ID = id
+		}
+	case 4: // huge
+		for i, m := range p.Mapping {
+			m.ID = 1<<62 - uint64(i*7)
+		}
+	}
+	if r.Chance(40) {
+		for i, l := range p.Location {
+			switch r.Intn(3) {
+			case 0:
+				l.ID = uint64(2*i + 2)
+			case 1:
+				l.ID = 1<<40 + uint64(len(p.Location)-i)
+			}
+		}
+		seen := map[uint64]bool{}
+		for i, l := range p.Location { // keep them unique
+			for seen[l.ID] {
+				l.ID += uint64(1000 + i)
+			}
+			seen[l.ID] = true
+		}
+	}
+	// a mix of mapped and unmapped locations (JIT / generated code has no mapping)
+	if len(p.Mapping) > 0 && r.Chance(50) {
+		for _, l := range p.Location {
+			if r.Chance(30) {
+				l.Mapping = nil
+			}
+		}
+	}
 	// most locations unsymbolized, mappings ordinary binaries: symbolization has work to do
 	for _, m := range p.Mapping {
 		if r.Chance(70) {
@@ -311,8 +449,9 @@ func c12DriverProfile(r *Rng) *profile.Profile {
 func c12GenDriverCase(r *Rng) c12Case {
 	p := c12DriverProfile(r)
 	cs := c12Case{Kind: "driver", Profile: Canon(p)}
-	base := r.Pick([]string{"local", "local", "fastlocal", "remote", "", "local:force", "force", "remote:force", "demangle=full", "local:demangle=none"})
+	base := r.Pick([]string{"local", "local", "fastlocal", "remote", "", "local:force", "force", "remote:force", "demangle=full", "local:demangle=none", "fastlocal:force", "none", "no", "remote:demangle=templates"})
 	cs.Mode = hexTok([]byte(base))
+	cs.LocalOnly = strings.HasPrefix(base, "local") || strings.HasPrefix(base, "fastlocal")
 	// one file script per distinct mapping file name
 	var names []string
 	seen := map[string]bool{}
